@@ -242,7 +242,7 @@ claim('C03', 'exploration',
       'DESIGN.md section 4, C03')
 
 claim('C17', 'fault_enumeration',
-      'For every public function that can allocate (158 operations over 68 functions, 27 of them repeated inside an open '
+      'For every public function that can allocate (161 operations over 68 functions, 27 of them repeated inside an open '
       'packet iterator on another loop, two at the insertion where a hash table grows: each argument shape of the CIF, '
       'container, loop, packet-iterator, packet, value, parse, write and utility calls) the single call is executed on a '
       'fresh deterministic fixture with the k-th allocation failing, for every k up to the count of an unfaulted twin '
